@@ -129,7 +129,7 @@ def plan(tier, seed):
                       'cut-outs, 5-residue windows; motions: 24 rotations x translations {generic, x~9900}%s; for amino-acid inputs each '
                       'motion is run twice (hydrogens built un-rounded; own hydrogens fed back with --keep-protons) and once more with --protonate-all; translations that push the '
                       'structure against the faces of the coordinate field, incl. (small inputs) every pose in which a constructed hydrogen is '
-                      'the outermost atom. non-trivial = distinct '
+                      'the outermost atom. multi-conformation layouts, metal-site pairs and clusters, windows cut down to defining atoms, inputs with a duplicated record and with more than 4000 atoms; coupled inputs under parameter files with common charge centre / shared determinants. non-trivial = distinct '
                       '(input, motion) other than the identity whose record has a determinant or a non-zero desolvation term') % (
                           ' and 4 rotations x {none, all-negative, x~-990, seed}' if tier == 'quick' else ' plus {none, all-negative, x~-990, seed}'),
                 bounds=dict(inputs=len(ins), rotations=24), samples=[ins[0], ins[10]])
